@@ -68,7 +68,14 @@ class Prop:
     def obligations(self, ctx):
         out = []
         for link in self.links(ctx):
-            for o in ctx.memo(link.__name__, lambda link=link: link(ctx)):
+            try:
+                obls = ctx.memo(link.__name__, lambda link=link: link(ctx))
+            except Exception:     # a crashing link is a checker defect for this run, never a verdict
+                import traceback
+                obls = [Obl("link:%s/runs" % link.__name__, link.__name__, "safety", "the link generates its obligations", status=ERROR, backend="checker",
+                            detail=traceback.format_exc()[-1500:], props=(self.id,))]
+                ctx.cache[link.__name__] = obls
+            for o in obls:
                 if self.id in o.props:
                     out.append(o)
         return out
@@ -192,7 +199,7 @@ class C03(Prop):
         from vcore import links_gen
         from vcore.links_models import link_models
         from vcore import links_misc
-        return [link_binning, link_models, links_misc.link_pipeline] + links_gen.links_for("C03")
+        return [link_binning, link_models, links_misc.link_pipeline, links_misc.link_lean] + links_gen.links_for("C03")
 
     def canaries(self, ctx):
         t = BIN + "deterministic_choice"
@@ -212,7 +219,7 @@ class C10(Prop):
 
     def links(self, ctx):
         from vcore import links_gen, links_misc
-        return [link_binning, links_misc.link_pipeline] + links_gen.links_for("C10")
+        return [link_binning, links_misc.link_pipeline, links_misc.link_lean] + links_gen.links_for("C10")
 
     def canaries(self, ctx):
         t = BIN + "deterministic_choice"
@@ -230,7 +237,8 @@ class C16(Prop):
     explanation = "full contract of deterministic_choice incl. exceptional postconditions and frame; equivalence lemmas over the contract"
 
     def links(self, ctx):
-        return [link_binning]
+        from vcore import links_misc
+        return [link_binning, links_misc.link_lean]
 
     def canaries(self, ctx):
         t = BIN + "deterministic_choice"
@@ -303,7 +311,7 @@ class C08(Prop):
 
     def links(self, ctx):
         from vcore.links_lex import link_lexer, link_lexer_fns
-        return [link_lexer, link_lexer_fns]
+        return [link_lexer, link_lexer_fns, link_evaluator] + _misc("link_sly_confinement", "link_pipeline")
 
     def canaries(self, ctx):
         from vcore.links_lex import table_canary, edit_pattern, edit_move_before
@@ -435,7 +443,7 @@ class C02(Prop):
     explanation = "five links: lexer tables == documented scanner; grammar tables and 43 action bodies == attribute grammar; models keep values; every generator constructor case parses to D(node); exec semantics assumed"
 
     def links(self, ctx):
-        return _lex() + _gram() + _models() + _gen() + _misc("link_pipeline")
+        return _lex() + _gram() + _models() + _gen() + [link_evaluator] + _misc("link_pipeline", "link_sly_confinement")
 
     def canaries(self, ctx):
         from vcore.links_lex import table_canary, edit_move_before
@@ -463,7 +471,7 @@ class C05(Prop):
     explanation = "token functions (value conversions), literal grammar actions, model case analysis with the real annotations, raw-quoting obligations and literal oracle cases in the generator"
 
     def links(self, ctx):
-        return _lex() + _gram() + _models() + _gen() + _misc("link_pipeline")
+        return _lex() + _gram() + _models() + _gen() + [link_evaluator] + _misc("link_pipeline", "link_sly_confinement")
 
     def canaries(self, ctx):
         return [model_canary("smart-union-removed", "smart_union = True\n\nclass RecursivePredicate", "smart_union = False\n\nclass RecursivePredicate", r"model~.*TerminalPredicate"),
@@ -482,7 +490,7 @@ class C06(Prop):
     explanation = "lexer error-equivalence with the documented scanner + error callbacks proved to raise on every path + production set == G_ref, no conflicts, no error productions + recompile turns a None parse into ParseError"
 
     def links(self, ctx):
-        return _lex() + _gram() + [link_evaluator] + _misc("link_pipeline")
+        return _lex() + _gram() + [link_evaluator] + _misc("link_pipeline", "link_sly_confinement")
 
     def canaries(self, ctx):
         from vcore.links_lex import table_canary, edit_pattern
@@ -502,7 +510,7 @@ class C07(Prop):
     explanation = "whole-word keywords (rxvc), constructors total on grammar values (model), generator validity: distinct parameters, identifiers inside tuples in scope, both layouts parse; identifiers that are Python keywords / skeleton names are a recorded known finding with an exclusion obligation"
 
     def links(self, ctx):
-        return _lex() + _gram() + _models() + _gen() + [link_evaluator] + _misc("link_pipeline")
+        return _lex() + _gram() + _models() + _gen() + [link_evaluator] + _misc("link_pipeline", "link_sly_confinement")
 
     def canaries(self, ctx):
         from vcore.links_lex import table_canary, edit_pattern
@@ -521,7 +529,7 @@ class C09(Prop):
     explanation = "key template == salt literal + ''.join(map(str,[sorted distinct splitters])) mentioning no other name; signature ends in **kwargs, parameters = splitters U condition fields; helper called by keyword; __call__ forwards **kwargs only"
 
     def links(self, ctx):
-        return _gen() + [link_evaluator] + _misc("link_pipeline")
+        return _gen() + [link_evaluator] + _misc("link_pipeline", "link_sly_confinement")
 
     def canaries(self, ctx):
         return [gen_canary("declaration-order-key", "return sorted(self._local_vars)", "return list(self._experiment_ast.splitting_fields)", r"generate_key_definition/.*\[|local_vars"),
@@ -561,7 +569,7 @@ class C13(Prop):
     explanation = "raw-hole single-token obligations at every interpolation site; generated module == D(ast) with constants as the only literal-dependent parts; exec pipeline pinned"
 
     def links(self, ctx):
-        return _gen() + [link_evaluator] + _misc("link_pipeline")
+        return _gen() + [link_evaluator] + _misc("link_pipeline", "link_sly_confinement")
 
     def canaries(self, ctx):
         return [gen_canary("salt-hand-quoted", "repr(self._experiment_ast.salt)", "f\"'{self._experiment_ast.salt}'\"", r"salt-raw-quoting|generate_key_definition/.*\["),
@@ -576,7 +584,7 @@ class C14(Prop):
     explanation = "generate verified for both layouts against D.module (same D up to helper placement); generate_code == BLACK(GEN(PARSE(text), expose)) with the evaluator's generator class and arguments; recompile pipeline pinned; id capture is a recorded known finding with an exclusion obligation"
 
     def links(self, ctx):
-        return _gen() + [link_evaluator] + _misc("link_pipeline")
+        return _gen() + [link_evaluator] + _misc("link_pipeline", "link_sly_confinement")
 
     def canaries(self, ctx):
         return [gen_canary("exposed-layout-depth", "self._indent_depth = 1\n        else:", "self._indent_depth = 2\n        else:", r"generate/exposed"),
